@@ -436,7 +436,9 @@ impl Ctx {
             cases: per,
             rng_seed: RngSeed::Fixed(self.engine_seed(checker)),
             failure_persistence: None,
-            max_shrink_iters: 20_000,
+            // long streams (thousands of elements per case): every shrink step re-runs an expensive
+            // check, and their cases are built from (length, class, seed), which shrinks in few steps
+            max_shrink_iters: if checker.ends_with("-long") { 300 } else { 20_000 },
             max_global_rejects: 1 << 20,
             ..Config::default()
         };
